@@ -89,7 +89,7 @@ def run(outcome, tier, seed):
                 cases.append(cli.Case(opt + ["-tj", "-", "-"], data))
                 cases.append(cli.Case(opt + ["-tj", "a.json", "-", "b.yaml", "-"], data))
                 tags += ["stdin"] * 6
-                fifo = "p_%s_%s.%s" % (fmt, f or "x", rng.choice(["json", "dat", "YAML"]))
+                fifo = "p%d_%s_%s.%s" % (len(cases), fmt, f or "x", rng.choice(["json", "dat", "YAML"]))
                 os.mkfifo(fx.path(fifo))
                 cases.append(cli.Case(opt + ["-tj", fifo], None, fifos={fifo: data}))
                 tags.append("fifo")
